@@ -3,10 +3,12 @@
 set -e
 cd "$(dirname "$0")"
 mkdir -p .build out evidence
-(cd lean && lake build PintModel driver)
 export GOFLAGS=-mod=mod GOPROXY=off GOCACHE="$PWD/.build/gocache"
 unset GOTOOLCHAIN GOSUMDB || true
 (cd tools/extract && go build -o ../../.build/extract .)
+mkdir -p lean/PintModel/Gen
+.build/extract -repo /repo -out lean/PintModel/Gen
+(cd lean && lake build PintModel driver)
 cp /repo/go.sum harness/go.sum
 (cd harness && go build -tags "verif stringlabels" -o ../.build/corr ./cmd/corr)
 echo setup-ok
